@@ -188,14 +188,16 @@ pub fn check_writer_table<const N: usize>(raw: &[u8], kind: u8) -> Outcome {
 /// C19: two Start events in a row from a depth close to the preallocated 128 bytes: the indent buffer
 /// grows (re-allocating) in the first step and has to be extended again in the second; the indent never
 /// exceeds its buffer and a third markup event can be written. raw: [ch, size, slb, cur(2), probe(2)]
-pub fn check_indent_two_starts(raw: &[u8]) -> Outcome {
+pub fn check_indent_two_starts(raw: &[u8], cur: usize) -> Outcome {
+    // `cur` (the depth before the two events) is concrete per instance: with a symbolic depth the
+    // counterexample trace (needed for the native replay) does not fit in memory
     let mut r = Raw::new(raw);
     let ch = r.u8();
     let size = r.u8() as usize;
     let slb = r.bool();
-    let cur = r.u16() as usize;
+    let _ = r.u16();
     let probe = r.u16() as usize;
-    require!(size <= 9 && cur >= 120 && cur <= 128);
+    require!(size <= 9);
     let mut ind = Writer::verif_with_indent_state(Sink::new(probe), ch, size, slb, cur, 128);
     let a = ind.write_event(event_of(0, "v"));
     let b = ind.write_event(event_of(0, "v"));
